@@ -19,6 +19,14 @@ from pydbml.parser.blueprints import ColumnBlueprint
 
 pp.ParserElement.set_default_whitespace_chars(' \t\r')
 
+def parse_number(s, loc, tok):
+    try:
+        return float(''.join(tok[0])) if '.' in tok[0] else int(tok[0])
+    except ValueError as e:
+        # e.g. more digits than the interpreter is willing to convert (sys.get_int_max_str_digits)
+        raise pp.ParseFatalException(s, loc, f'Invalid number: {e}')
+
+
 type_args = ("(" + pp.original_text_for(expression) + ")")
 
 # column type is parsed as a single string, it will be split by blueprint
@@ -35,7 +43,7 @@ default = pp.CaselessLiteral('default:').suppress() + _ - (
         }[tok[0]]
     )
     | number_literal.set_parse_action(
-        lambda s, loc, tok: float(''.join(tok[0])) if '.' in tok[0] else int(tok[0])
+        lambda s, loc, tok: parse_number(s, loc, tok)
     )
 )
 
